@@ -83,6 +83,41 @@ pub fn add_completers(n: &mut Node, u: &mut Un, shell: bool) {
     }
 }
 
+/// `.catch()` on some optional/many/some wrappers (completion hints must survive it)
+pub fn add_catch(n: &mut Node, u: &mut Un) {
+    match n {
+        Node::Optional { n, catch } | Node::Many { n, catch } | Node::Some { n, catch, .. } => {
+            if u.chance(60) {
+                *catch = true;
+            }
+            add_catch(n, u);
+        }
+        Node::Cmd(c) => add_catch(&mut c.level.body, u),
+        Node::Seq(xs) | Node::Alt(xs) | Node::Adjacent(xs) => {
+            for x in xs {
+                add_catch(x, u);
+            }
+        }
+        Node::Named(_) | Node::Pos(_) | Node::Pure(_) | Node::Fail(_) => {}
+        Node::Collect { n, .. }
+        | Node::Count(n)
+        | Node::Last(n)
+        | Node::Fallback { n, .. }
+        | Node::FallbackWith { n, .. }
+        | Node::Guard { n, .. }
+        | Node::Parse { n, .. }
+        | Node::Map(n)
+        | Node::Hide(n)
+        | Node::HideUsage(n)
+        | Node::CustomUsage(n, _)
+        | Node::GroupHelp(n, _)
+        | Node::WithGroupHelp(n, _)
+        | Node::Complete { n, .. }
+        | Node::CompleteShell(n, _)
+        | Node::Boxed(n) => add_catch(n, u),
+    }
+}
+
 fn wrap_completer(inner: Node, id: usize, u: &mut Un, shell: bool) -> Node {
     if shell && u.chance(80) {
         return Node::CompleteShell(inner.b(), crate::wild::gen_shell(u));
@@ -108,6 +143,7 @@ pub fn decode(bytes: &[u8]) -> Case {
     let mut names = Names::new();
     let mut level = gen_broad_level(&mut u, &mut names, &cfg(), 1);
     add_completers(&mut level.body, &mut u, true);
+    add_catch(&mut level.body, &mut u);
     let sent = SentGen {
         names: &mut names,
         mode: ValMode::Tokens,
@@ -156,7 +192,23 @@ pub fn decode(bytes: &[u8]) -> Case {
         .iter()
         .map(|c| c.name.clone())
         .collect();
-    let (typed, variant): (String, &'static str) = match u.below(10) {
+    let cmd_aliases: Vec<(char, String)> = level
+        .body
+        .commands(true)
+        .iter()
+        .filter_map(|c| c.shorts.first().map(|s| (*s, c.name.clone())))
+        .collect();
+    let (typed, variant): (String, &'static str) = match u.below(12) {
+        10 if !cmd_aliases.is_empty() => {
+            // the one-letter alias of a command followed by more letters
+            let (a, _) = u.pick(&cmd_aliases).clone();
+            let tail = *u.pick(&["x", "e", "u", "zz", "es"]);
+            (format!("{}{}", a, tail), "alias-plus-letters")
+        }
+        11 if !cmd_aliases.is_empty() => {
+            let (a, _) = u.pick(&cmd_aliases).clone();
+            (a.to_string(), "exact-alias")
+        }
         0 => (String::new(), "empty"),
         1 => ("-".into(), "dash"),
         2 => ("--".into(), "dashdash"),
@@ -510,7 +562,26 @@ pub fn check_case(case: &Case, ctx: &mut Ctx) -> Verdict {
     }
 
     // completeness for a freshly typed --prefix in option position
-    if case.clean_prefix && typed.starts_with("--") && tvalue.is_none() {
+    // inside a hidden command bpaf offers nothing at all (its items count as hidden)
+    let via_hidden_command = {
+        let mut cur = &case.level;
+        let mut hidden = false;
+        for name in &path {
+            let t = things(cur);
+            match t.iter().find_map(|v| match v.thing {
+                Thing::Cmd(c) if c.name == *name => Some((c, v.hidden)),
+                _ => None,
+            }) {
+                Some((c, h)) => {
+                    hidden |= h;
+                    cur = &c.level;
+                }
+                None => break,
+            }
+        }
+        hidden
+    };
+    if case.clean_prefix && typed.starts_with("--") && tvalue.is_none() && !via_hidden_command {
         let last_is_arg_name = case.prefix.last().map_or(false, |it| {
             let s = String::from_utf8_lossy(it).into_owned();
             !s.contains('=')
